@@ -184,15 +184,24 @@ def strategy(focus="membership"):
                "rebalance_timeout_ms": draw(st.sampled_from([800, 1500, 3000])),
                "retry_backoff_ms": draw(st.sampled_from([10, 50])), "request_timeout_ms": 0,
                "auto_commit": draw(st.booleans()), "auto_commit_interval_ms": draw(st.sampled_from([50, 200, 500])),
-               "metadata_max_age_ms": draw(st.sampled_from([300, 1000]))}
+               "metadata_max_age_ms": draw(st.sampled_from([300, 1000])),
+               # an application that stops polling for longer than this leaves the group and rejoins on its next poll
+               "max_poll_interval_ms": draw(st.sampled_from([300000, 300000, 300000, 400, 1000]))}
         # as with the defaults (40 s vs 30 s) a JoinGroup must be allowed to wait for the whole rebalance
         cfg["request_timeout_ms"] = cfg["rebalance_timeout_ms"] + draw(st.sampled_from([300, 1000]))
+        join_max = draw(st.sampled_from([5, 5, 2, 1, 0]))
         nm = draw(st.integers(1, 4))
         members = []
         for i in range(nm):
             tl = sorted(topics) if draw(st.integers(0, 3)) else [draw(st.sampled_from(sorted(topics)))]
             spec = {"topics": tl, "start_at": draw(st.sampled_from([0.0, 0.0, 0.05, 0.3, 1.0, 2.5])),
                     "callback_delay": draw(st.sampled_from([0, 0, 0.01, 0.2])), "ops": []}
+            # a revoke callback may take longer than the session timeout (the member keeps heartbeating while it
+            # runs) as long as it leaves room inside the rebalance timeout; the assigned callback runs before the
+            # heartbeat task is restarted, so it has to stay below the session timeout (see DESIGN.md 8.6)
+            # (JoinGroup v0 has no rebalance timeout: the broker uses the session timeout instead)
+            if cfg["rebalance_timeout_ms"] >= 1500 and join_max >= 1 and draw(st.integers(0, 3)) == 0:
+                spec["revoke_delay"] = 0.7
             if draw(st.integers(0, 5)) == 0:
                 spec["topics"] = "t.*"
             for _ in range(draw(st.integers(0, 8))):
@@ -236,7 +245,7 @@ def strategy(focus="membership"):
             else:
                 t = draw(st.sampled_from(sorted(topics)))
                 env.append({"at": at, "ev": "append", "tp": [t, draw(st.integers(0, topics[t] - 1))], "n": draw(st.integers(1, 3))})
-        return {"cfg": cfg, "cluster": {"nodes": nodes, "topics": topics, "join_max": draw(st.sampled_from([5, 5, 2, 1, 0])),
+        return {"cfg": cfg, "cluster": {"nodes": nodes, "topics": topics, "join_max": join_max,
                                         "group_coord": draw(st.integers(0, 2)), "initial": [3, 2]},
                 "members": members, "kills": kills, "faults": faults, "env": env,
                 "run_for": draw(st.sampled_from([3.0, 5.0])),
